@@ -86,6 +86,12 @@ class XQ:
     def __hash__(self): return hash(self.v)
     def __bool__(self): return self.v != 0
     def __float__(self): return float(self.v)
+    # a number class must survive whatever numeric coercion the code under test applies
+    def __int__(self): return int(self.v)
+    def __trunc__(self): return self.v.__trunc__()
+    def __floor__(self): return self.v.__floor__()
+    def __ceil__(self): return self.v.__ceil__()
+    def __round__(self, nd=None): return round(self.v, nd) if nd is not None else round(self.v)
     def __repr__(self): return f"XQ({self.v})"
     __str__ = __repr__
     def __format__(self, spec): return format(float(self.v), spec) if spec else str(self.v)
